@@ -33,7 +33,13 @@ static TFheGateBootstrappingSecretKeySet *imp_secret(const std::string &b, int t
     if (tr == 1) { std::istringstream is(b); return new_tfheGateBootstrappingSecretKeySet_fromStream(is); }
     FILE *F = tmpfile(); fwrite(b.data(), 1, b.size(), F); rewind(F); TFheGateBootstrappingSecretKeySet *r = new_tfheGateBootstrappingSecretKeySet_fromFile(F); fclose(F); return r;
 }
-static bool contains(const std::string &hay, const std::string &needle) { return needle.size() >= 8 && hay.find(needle) != std::string::npos; }
+// a key encoding is searched for only when it is distinctive: at least 8 non-zero bytes.  A needle that is almost all zeros (tiny n, or
+// a key with very few ones) also matches inside the all-zero rows of a key-switching key at unaligned offsets (the byte before a zero
+// row is arbitrary), which says nothing about the secret key
+static bool contains(const std::string &hay, const std::string &needle) {
+    size_t nz = 0; for (unsigned char c : needle) if (c) nz++;
+    return nz >= 8 && hay.find(needle) != std::string::npos;
+}
 static std::string raw32(const int32_t *p, size_t n) { return std::string((const char *) p, n * 4); }
 static std::string ctbytes(const LweSample *s, int n) { std::string r((const char *) s->a, n * 4); r.append((const char *) &s->b, 4); return r; }
 
